@@ -13,3 +13,10 @@ for p in "$@"; do
 done
 git -C $repo checkout -- .
 git -C $repo status --short | head -3
+# Generated/*.lean were regenerated from the changed tree: bring them back to /repo's working tree
+unset VF_REPO
+PYTHONPATH=/verif /venv/bin/python - >/dev/null 2>&1 <<'PY'
+from vf.translate import gen
+for f in gen.GENERATORS.values():
+    f()
+PY
